@@ -25,3 +25,21 @@ Definition check_json (c : json_case) : bool :=
       end
   | _ => true
   end.
+
+(* ---- the reference decoding semantics (Spec/JsonDecode.v) against the real encoding/json ---- *)
+From SbModel Require Export Spec.JsonDecode.
+
+Inductive sobs := SOk (v : gval) | SErr.
+Record jdec_case := JdecCase {
+  jd_doc : json;
+  jd_ty : ty;
+  jd_floats : list (list (N * N) * N * option N);
+  jd_std : sobs                          (* encoding/json.Unmarshal of the document text into a zero target *)
+}.
+Definition check_jdec (c : jdec_case) : bool :=
+  negb (jtarget (jd_ty c)) ||     (* outside the targets the reference semantics speaks about (byte slices, ...) *)
+  match jdec (pf_lookup (jd_floats c)) default_opts (jd_ty c) (zero (jd_ty c)) (jd_doc c), jd_std c with
+  | Ok v, SOk v' => gval_eqb v v'
+  | Err _, SErr => true
+  | _, _ => false
+  end.
